@@ -17,6 +17,7 @@ import (
 	"go/printer"
 	"go/token"
 	"go/types"
+	"math/big"
 	"os"
 	"path/filepath"
 	"sort"
@@ -241,11 +242,16 @@ func exprString(fset *token.FileSet, e ast.Node) string {
 	return b.String()
 }
 
+var snapshotPath string
+
 func main() {
 	if len(os.Args) < 3 {
-		die("usage: rscp2lean <repo> <outdir>")
+		die("usage: rscp2lean <repo> <outdir> [-snapshot file]")
 	}
 	repo, outdir := os.Args[1], os.Args[2]
+	if len(os.Args) == 5 && os.Args[3] == "-snapshot" {
+		snapshotPath = os.Args[4]
+	}
 	if err := os.Chdir(repo); err != nil {
 		die("%v", err)
 	}
@@ -651,6 +657,55 @@ func genTags(o *out, p *pkgInfo) {
 			items = append(items, v)
 		}
 	}
+	// Names as numbers: code(s) = the base-256 number of the bytes of s behind a leading 1 (injective).
+	// The kernel compares Nat literals in microseconds but takes ~30 ms per string comparison, so all
+	// table-wide theorems of C14 are stated on the codes; `Model.nameCode` is the same function in Lean.
+	{
+		dt := map[string]string{}
+		if cl := mapLit(p, "dataTypeMap"); cl != nil {
+			for _, e := range cl.Elts {
+				kv := e.(*ast.KeyValueExpr)
+				k, _ := constOf(p, kv.Key)
+				v, _ := constOf(p, kv.Value)
+				dt[k] = v
+			}
+		}
+		var voc, mapC, n2vC, snap []string
+		if cl := mapLit(p, "_TagMap"); cl != nil {
+			for _, e := range cl.Elts {
+				kv := e.(*ast.KeyValueExpr)
+				k, _ := constOf(p, kv.Key)
+				d, ok := dt[k]
+				if !ok {
+					d = "0"
+				}
+				name := evalStringExpr(p, kv.Value)
+				voc = append(voc, fmt.Sprintf("(%s, %s, %s)", k, nameCode(name), d))
+				snap = append(snap, fmt.Sprintf("(%s, %s, %s) /- %s -/", k, nameCode(name), d, name))
+				mapC = append(mapC, fmt.Sprintf("(%s, %s)", k, nameCode(name)))
+			}
+		}
+		if cl := mapLit(p, "_TagNameToValueMap"); cl != nil {
+			for _, e := range cl.Elts {
+				kv := e.(*ast.KeyValueExpr)
+				v, _ := constOf(p, kv.Value)
+				n2vC = append(n2vC, fmt.Sprintf("(%s, %s)", nameCode(evalStringExpr(p, kv.Key)), v))
+			}
+		}
+		fmt.Fprintf(b, "/-- `_TagMap` with names as codes: (number, code of the name) -/\n")
+		chunked(b, "tagMapC", "Nat × Nat", mapC)
+		fmt.Fprintf(b, "/-- `_TagNameToValueMap` with names as codes: (code of the name, number) -/\n")
+		chunked(b, "tagNameToValueC", "Nat × Nat", n2vC)
+		fmt.Fprintf(b, "/-- the vocabulary: (number, code of the name, declared data type), in `_TagMap` order -/\n")
+		chunked(b, "vocabC", "Nat × Nat × Nat", voc)
+		if snapshotPath != "" {
+			var sb bytes.Buffer
+			fmt.Fprintf(&sb, "-- Frozen vocabulary of go-rscp at the pinned commit (written once by `rscp2lean -snapshot`, committed):\n-- (number, code of the name, declared data type). C14 `vocab_stable` proves that the current vocabulary\n-- still contains every entry.\nnamespace Rscp.Snapshot\n\n")
+			chunked(&sb, "vocabC", "Nat × Nat × Nat", snap)
+			fmt.Fprintf(&sb, "end Rscp.Snapshot\n")
+			os.WriteFile(snapshotPath, sb.Bytes(), 0o644)
+		}
+	}
 	fmt.Fprintf(b, "/-- `secretTags` (tag_issecret.go) -/\ndef secretTags : List Nat := [%s]\n\n", strings.Join(items, ", "))
 	fmt.Fprintf(b, "end Rscp.Gen\n")
 }
@@ -843,6 +898,16 @@ func genShapes(o *out, rs, cli *pkgInfo) {
 	b.WriteString(strings.Join(ls, ",\n  "))
 	b.WriteString("]\n")
 	fmt.Fprintf(b, "\nend Rscp.Gen.Shape\n")
+}
+
+// nameCode: the bytes of s as a base-256 number behind a leading 1
+func nameCode(s string) string {
+	n := new(big.Int).SetInt64(1)
+	for i := 0; i < len(s); i++ {
+		n.Mul(n, big.NewInt(256))
+		n.Add(n, big.NewInt(int64(s[i])))
+	}
+	return n.String()
 }
 
 func sortedKeys(m map[string]*ast.FuncDecl) []string {
